@@ -298,3 +298,20 @@ S("C08", "OBIS layout scales voltages like currents", "R2", (KA, "            sc
     "            scale = -3 if element_name in _FIELD_SCALING else None\n            if scale and isinstance(measure.value, int):\n                scaled_value = round(measure.value * (10**scale), abs(scale))\n                dictionary[element_name] = scaled_value\n            else:\n                dictionary[element_name] = measure.value\n\n    return dictionary\n\n\ndef normalize_parsed_frame"))
 N("C08", "scaling by division", (KA, "                scaled_value = round(measure.value * (10**scale), abs(scale))\n                dictionary[element_name] = scaled_value\n            else:\n                dictionary[element_name] = measure.value\n\n    return dictionary\n\n\ndef _normalize_parsed_obis",
                                     "                scaled_value = measure.value / (10 ** (-scale))\n                dictionary[element_name] = scaled_value\n            else:\n                dictionary[element_name] = measure.value\n\n    return dictionary\n\n\ndef _normalize_parsed_obis"))
+
+# ------------------------------------------------------------------------------------------------ C09
+KM = "kamstrup"
+S("C09", "pinned defect: meter-type literal ...256", "R1", (KM, 'if x.obis == "1.1.96.1.1.255"', 'if x.obis == "1.1.96.1.1.256"'))
+S("C09", "pinned defect: startswith on the element container", "R2", (KM, "        and isinstance(meter_type.value, str)\n        and meter_type.value.startswith(\"685\")", "        and meter_type.startswith(\"685\")"))
+S("C09", "pinned defect: multiplication by 10**-n", "R4", (KM, "                    dictionary[element_name] = (\n                        measure.value * (10**scale)\n                        if scale > 0\n                        else measure.value / (10**-scale)\n                    )", "                    dictionary[element_name] = measure.value * (10**scale)"))
+S("C09", "CT table currents -3 -> -2", "R3", (KM, '    "1.1.51.7.0.255": -3,  # IL2', '    "1.1.51.7.0.255": -2,  # IL2'))
+S("C09", "energy key typo", "R3", (KM, '    "1.1.3.8.0.255": 1,  # R12\n    "1.1.4.8.0.255": 1,  # R34\n}\n\n_field_scaling_ct_meter', '    "1.1.3.8.1.255": 1,  # R12\n    "1.1.4.8.0.255": 1,  # R34\n}\n\n_field_scaling_ct_meter'))
+S("C09", 'startswith("685") -> ("686")', "R2", (KM, 'meter_type.value.startswith("685")', 'meter_type.value.startswith("686")'))
+S("C09", "table selection inverted", "R3", (KM, "field_scaling = _field_scaling_ct_meter if is_ct_meter else _field_scaling_standard", "field_scaling = _field_scaling_standard if is_ct_meter else _field_scaling_ct_meter"))
+S("C09", "meter type looked up by another code", "R2", (KM, 'if x.obis == "1.1.96.1.1.255"', 'if x.obis == "1.1.96.1.0.255"'))
+S("C09", "null padding fixed at four octets", "R5", (KM, '    "_NullData" / cosem.NullData,  # trim null-data between elements', '    "_NullData" / construct.Optional(construct.Const(b"\\x00\\x00\\x00\\x00")),'))
+S("C09", "APDU clock only when the list has none", "R5", (KM, "        dictionary[obis_map.FIELD_METER_DATETIME] = frame.information.DateTime.datetime\n", "        dictionary.setdefault(obis_map.FIELD_METER_DATETIME, frame.information.DateTime.datetime)\n"))
+S("C09", "list version stored under meter_id", "R5", (KM, "            element_name = obis_map.FIELD_OBIS_LIST_VER_ID\n", "            element_name = obis_map.FIELD_METER_ID\n"))
+S("C09", "pinned defect: unknown OBIS raises KeyError", "R5", (KM, "            if obis_group_cdr in obis_map.obis_name_map:\n                element_name = obis_map.obis_name_map[obis_group_cdr]\n            else:\n                element_name = obis_group_cdr\n", "            element_name = obis_map.obis_name_map[obis_group_cdr]\n"))
+N("C09", "scaling by rounding idiom for negatives", (KM, "                        else measure.value / (10**-scale)\n", "                        else round(measure.value * (10**scale), -scale)\n"))
+N("C09", "CT test with explicit parentheses order", (KM, "    field_scaling = _field_scaling_ct_meter if is_ct_meter else _field_scaling_standard", "    field_scaling = _field_scaling_standard if not is_ct_meter else _field_scaling_ct_meter"))
